@@ -9,7 +9,7 @@ package verifhook
 
 import (
 	"fmt"
-	"math/rand"
+	"os"
 	"runtime"
 	"strconv"
 	"strings"
@@ -47,6 +47,7 @@ var (
 	autoReg   bool
 	nextAuto  int
 	chaosSeed atomic.Int64
+	chaosCtr  atomic.Int64
 	vnow      atomic.Int64 // virtual clock (ns)
 	gen       atomic.Int64 // schedule generation: observations of goroutines of an older schedule are dropped
 )
@@ -62,7 +63,16 @@ func goid() uint64 {
 }
 
 // SetMode switches the behaviour of At for the whole process.
-func SetMode(m int) { mode.Store(int32(m)) }
+func SetMode(m int) {
+	if m == Chaos && chaosSeed.Load() == 0 {
+		if v, err := strconv.ParseInt(os.Getenv("VERIF_SEED"), 10, 64); err == nil {
+			chaosSeed.Store(v)
+		} else {
+			chaosSeed.Store(1)
+		}
+	}
+	mode.Store(int32(m))
+}
 
 // Reset forgets every managed goroutine (between schedules).
 func Reset(autoRegister bool, firstAutoTid int) {
@@ -114,8 +124,17 @@ func At(label string) {
 	<-g.grant
 }
 
+// chaosNext derives the chaos decisions from VERIF_SEED (splitmix64 over a shared counter), so that a
+// stress command is reproducible up to the Go scheduler's own choices.
+func chaosNext() int64 {
+	z := uint64(chaosSeed.Load()) + uint64(chaosCtr.Add(1))*0x9E3779B97F4A7C15
+	z = (z ^ (z >> 30)) * 0xBF58476D1CE4E5B9
+	z = (z ^ (z >> 27)) * 0x94D049BB133111EB
+	return int64((z ^ (z >> 31)) >> 1)
+}
+
 func chaos() {
-	x := rand.Int63()
+	x := chaosNext()
 	switch {
 	case x%4 == 0:
 		runtime.Gosched()
